@@ -1,0 +1,52 @@
+//go:build verif
+
+package syncer
+
+import (
+	"context"
+
+	"github.com/PowerDNS/lightningstream/lmdbenv/header"
+	"github.com/PowerDNS/lightningstream/snapshot"
+	"github.com/PowerDNS/lightningstream/syncer/cleaner"
+	"github.com/PowerDNS/lmdb-go/lmdb"
+)
+
+// This file only exists in the `verif` build. It exports thin wrappers around
+// unexported functionality so that the simulation harness can drive it
+// directly.
+
+// VerifCleaner returns the snapshot cleaner of this Syncer.
+func (s *Syncer) VerifCleaner() *cleaner.Worker {
+	return s.cleaner
+}
+
+// VerifMainToShadow runs the main-to-shadow mirror pass in the given txn.
+func (s *Syncer) VerifMainToShadow(ctx context.Context, txn *lmdb.Txn, tsNano header.Timestamp) error {
+	return s.mainToShadow(ctx, txn, tsNano)
+}
+
+// VerifShadowToMain runs the shadow-to-main mirror pass in the given txn.
+func (s *Syncer) VerifShadowToMain(ctx context.Context, txn *lmdb.Txn) error {
+	return s.shadowToMain(ctx, txn)
+}
+
+// VerifReadDBI dumps a DBI like the snapshot and mirror code does.
+func (s *Syncer) VerifReadDBI(txn *lmdb.Txn, dbiName, origDBIName string, rawValues bool) (*snapshot.DBI, error) {
+	return s.readDBI(txn, dbiName, origDBIName, rawValues)
+}
+
+func VerifDupSortHackEncodeOne(e snapshot.KV) (snapshot.KV, error) {
+	return dupSortHackEncodeOne(e)
+}
+
+func VerifDupSortHackDecodeOne(e snapshot.KV) (snapshot.KV, error) {
+	return dupSortHackDecodeOne(e)
+}
+
+func VerifDupSortHackEncode(dbiMsg *snapshot.DBI) (*snapshot.DBI, error) {
+	return dupSortHackEncode(dbiMsg)
+}
+
+func VerifDupSortHackDecode(dbiMsg *snapshot.DBI) (*snapshot.DBI, error) {
+	return dupSortHackDecode(dbiMsg)
+}
